@@ -2,7 +2,7 @@
 import runner
 import vcommon as vc
 
-NCFG = 21
+NCFG = 24
 
 
 def _nhist(maxlen):
@@ -15,8 +15,8 @@ CRASH_LEN = {"quick": 4, "thorough": 6}
 SPEC = dict(
     prop="C15", level="fault_enumeration", default_harness="logfiles",
     harnesses={"logfiles": dict(name="logfiles", sources=["logfiles.cpp"], with_lib=True)},
-    rule=("enumeration, not sampling: 21 configurations (files::Counted with 1..3 entries, files::MaxSize with "
-          "8/11/17/30 bytes, each with 1..3 generations) x every history over {msg-short, msg-mid, msg-long, reopen} "
+    rule=("enumeration, not sampling: 24 configurations (files::Counted with 1..3 entries, files::MaxSize with "
+          "6/8/11/17/30 bytes (with limit 6 the long message does not fit into an empty file), each with 1..3 generations) x every history over {msg-short, msg-mid, msg-long, reopen} "
           "(texts of 2/4/7 characters = 3/5/8 bytes on disk, each with a unique serial; reopen = destroy the "
           "files::Handler and construct a new one on the same file-name definition) of length 1..6 (quick) / 1..8 "
           "(thorough), each in a fresh directory (mode hist). After EVERY event the directory is listed and all "
